@@ -72,6 +72,7 @@ type pgen struct {
 	texts   []string
 	noErr   bool // avoid constructs that may fail the render
 	captures int
+	rich    bool // use the extended filter pool
 }
 
 func pick[T any](r *rand.Rand, xs []T) T { return xs[r.Intn(len(xs))] }
@@ -157,6 +158,9 @@ func (g *pgen) expr(depth int) J {
 
 func (g *pgen) filtered(depth int) J {
 	recv := g.expr(depth)
+	if g.rich && g.r.Intn(2) == 0 {
+		return pick(g.r, moreFilters)(g, recv)
+	}
 	switch g.r.Intn(12) {
 	case 0:
 		return eFilter(recv, "upcase")
@@ -460,3 +464,178 @@ func init() {
 		return c
 	}
 }
+
+// ---------------------------------------------------------------------------------
+// "omni": programs from the whole grammar over rich binding environments, realised in
+// randomly chosen Go representations, spelled with random whitespace, with tags that
+// span lines, each parsed once and rendered several times.  The reference semantics
+// (TraceRender) decides; everything it does not decide is simply not counted.
+
+func (g *pgen) richScalar() J {
+	switch g.r.Intn(16) {
+	case 0:
+		return vStr(pick(g.r, []string{"010", "007", "-011", "3.50", " 3", "1e2"}))
+	case 1:
+		return vStr(pick(g.r, []string{"héllo", "à", "日本", " x\n", "a,b,c", "<b>&", "A b C"}))
+	case 2:
+		return J{"k": "big", "neg": g.r.Intn(2) == 0, "digits": bs(pick(g.r, []string{"9223372036854775807", "4294967296", "2147483648"}))}
+	case 3:
+		return vInt(pick(g.r, []int{100, 127, 255, 1000, -128}))
+	default:
+		return g.scalar()
+	}
+}
+
+func (g *pgen) richEnv() ([]any, J) {
+	env := []any{}
+	repr := J{}
+	add := func(n string, v J) { env = append(env, []any{bs(n), v}) }
+	intWidths := []string{"", "", "int8", "int16", "int32", "int64", "uint", "uint8", "uint16", "uint32", "uint64", "float64"}
+	for _, n := range []string{"n", "m", "s", "t", "u"} {
+		if g.r.Intn(7) == 0 {
+			continue
+		}
+		v := g.richScalar()
+		add(n, v)
+		switch jstr(v, "k") {
+		case "int":
+			h := pick(g.r, intWidths)
+			x := jint(v, "v")
+			if (x < 0 && len(h) > 0 && h[0] == 'u') || ((h == "int8") && (x > 127 || x < -128)) || (h == "uint8" && x > 255) {
+				h = ""
+			}
+			if h != "" {
+				repr[n] = h
+			}
+		case "flt":
+			if g.r.Intn(3) == 0 {
+				repr[n] = "float32"
+			}
+		case "str":
+			if g.r.Intn(6) == 0 {
+				repr[n] = pick(g.r, []string{"drop", "ptr"})
+			}
+		}
+		if _, ok := repr[n]; !ok && g.r.Intn(8) == 0 {
+			repr[n] = pick(g.r, []string{"drop", "ptr", "dropdrop"})
+		}
+	}
+	g.names = []string{"n", "m", "s", "t", "u", "zz"}
+	mk := func(name string) {
+		k := g.r.Intn(5)
+		xs := []any{}
+		kind := g.r.Intn(5)
+		for i := 0; i < k; i++ {
+			switch kind {
+			case 0:
+				xs = append(xs, vInt(g.r.Intn(7)-1))
+			case 1:
+				xs = append(xs, vStr(pick(g.r, []string{"a", "b", "c", "B", "é"})))
+			case 2:
+				xs = append(xs, vMap("k", g.richScalar()))
+			case 3:
+				xs = append(xs, vArr(vInt(g.r.Intn(3)), vStr("x")))
+			default:
+				xs = append(xs, g.richScalar())
+			}
+		}
+		add(name, vArr(xs...))
+		switch {
+		case kind == 0 && g.r.Intn(2) == 0:
+			h := pick(g.r, []string{"ints", "int64s", "int8s", "float64s"})
+			if k == 3 && g.r.Intn(2) == 0 {
+				h = "array3"
+			}
+			repr[name] = h
+		case kind == 1 && g.r.Intn(2) == 0:
+			repr[name] = "strings"
+		case g.r.Intn(6) == 0:
+			repr[name] = pick(g.r, []string{"drop", "ptr"})
+		case k > 0 && g.r.Intn(5) == 0:
+			repr[name+"/"+fmt.Sprint(g.r.Intn(k))] = "drop"
+		}
+	}
+	mk("a")
+	mk("b")
+	g.arrays = []string{"a", "b"}
+	add("h", vMap("first", vNil(), "k", g.richScalar(), "size", pick(g.r, []J{vInt(7), vNil()})))
+	add("g", vMap("j", vInt(1), "k", vStr("v")))
+	if g.r.Intn(3) == 0 {
+		repr["g"] = pick(g.r, []string{"drop", "ptr", "mapslice"})
+	}
+	add("o", J{"k": "map", "v": []any{[]any{bs("10"), g.richScalar()}}})
+	if g.r.Intn(2) == 0 {
+		repr["o"] = pick(g.r, []string{"intkeys", "anykeys"})
+	}
+	g.maps = []string{"h", "g"}
+	g.arrays = append(g.arrays, "o") // a one-entry map can be looped over (order is not an issue)
+	return env, repr
+}
+
+var moreFilters = []func(g *pgen, recv J) J{
+	func(g *pgen, r J) J { return eFilter(eVar(pick(g.r, g.arrays)), pick(g.r, []string{"sort", "reverse", "uniq", "compact"})) },
+	func(g *pgen, r J) J { return eFilter(eFilter(eVar(pick(g.r, g.arrays)), pick(g.r, []string{"sort", "reverse", "uniq", "compact"})), "join", eLit(vStr("+"))) },
+	func(g *pgen, r J) J { return eFilter(eFilter(eVar(pick(g.r, g.arrays)), "map", eLit(vStr("k"))), "join") },
+	func(g *pgen, r J) J { return eFilter(eFilter(eVar(pick(g.r, g.arrays)), "concat", eVar(pick(g.r, g.arrays))), "size") },
+	func(g *pgen, r J) J { return eFilter(r, "slice", eLit(vInt(g.r.Intn(5)-2)), eLit(vInt(g.r.Intn(3)))) },
+	func(g *pgen, r J) J { return eFilter(eFilter(r, "split", eLit(vStr(pick(g.r, []string{",", " ", "b"})))), "join", eLit(vStr("/"))) },
+	func(g *pgen, r J) J { return eFilter(r, pick(g.r, []string{"lstrip", "rstrip", "escape", "url_encode", "downcase", "strip_newlines", "newline_to_br", "escape_once"})) },
+	func(g *pgen, r J) J { return eFilter(r, pick(g.r, []string{"floor", "ceil", "round", "abs"})) },
+	func(g *pgen, r J) J { return eFilter(r, pick(g.r, []string{"minus", "divided_by", "modulo", "plus", "times"}), eLit(pick(g.r, []J{vInt(2), vInt(0), vFlt(1, 2), vInt(-3)}))) },
+	func(g *pgen, r J) J { return eFilter(r, "truncatewords", eLit(vInt(1+g.r.Intn(2)))) },
+	func(g *pgen, r J) J { return eFilter(r, pick(g.r, []string{"remove", "remove_first"}), eLit(vStr(pick(g.r, []string{"a", " ", "é"})))) },
+	func(g *pgen, r J) J { return eFilter(r, "round", eLit(vInt(g.r.Intn(3)))) },
+}
+
+// sprinkle lines inside tags: a tag may span lines
+func padTags(r *rand.Rand, nodes []any) {
+	for _, x := range nodes {
+		n := jobj(x)
+		switch jstr(n, "t") {
+		case "obj", "assign":
+			if r.Intn(6) == 0 {
+				n["padnl"] = 1 + r.Intn(2)
+			}
+		}
+		for _, f := range []string{"body", "else"} {
+			if b, ok := n[f].([]any); ok {
+				padTags(r, b)
+			}
+		}
+		for _, f := range []string{"branches", "whens"} {
+			if bs_, ok := n[f].([]any); ok {
+				for _, bx := range bs_ {
+					if body, ok := jobj(bx)["body"].([]any); ok {
+						padTags(r, body)
+					}
+				}
+			}
+		}
+	}
+}
+
+func genOmni(r *rand.Rand, i int) J {
+	g := &pgen{r: r, trims: r.Intn(4) == 0, budget: 14 + r.Intn(22), rich: true}
+	env, repr := g.richEnv()
+	prog := g.seq(3, 6)
+	pr := newPrinter(spellFromJSON(nil))
+	if _, err := pr.Template(prog); err != nil {
+		g.trims = false
+		g.budget = 20
+		prog = g.seq(3, 6)
+	}
+	padTags(r, prog)
+	c := J{"kind": "render", "prog": prog, "env": env, "repeat": 2 + r.Intn(2)}
+	if len(repr) > 0 {
+		c["repr"] = repr
+	}
+	if r.Intn(4) == 0 {
+		c["spell"] = J{"sp": bs(pick(r, []string{"  ", "\n", "\t", " \n "})), "tight": r.Intn(3) == 0}
+	}
+	if r.Intn(8) == 0 {
+		c["strict"] = true
+	}
+	return c
+}
+
+func init() { generators["omni"] = genOmni }
